@@ -81,10 +81,24 @@ func register(id string, r Rule) {
 // sort calls afterwards).
 var evalTrace *[]*eval.Evaluator
 
+// evalStepBudget, when positive, bounds the evaluators created while a small-input harness runs: a changed routine that
+// no longer terminates on a four-item batch is then reported after a fraction of a second instead of after 20M steps.
+var evalStepBudget int
+
+// evalNumCPU, when positive, is the processor count the evaluators created meanwhile report (a consumer's output must
+// not depend on it; the harnesses run with a single processor, the value that makes processor-sized bounds tightest).
+var evalNumCPU int
+
 func newEval(c *core.Ctx) *eval.Evaluator {
 	ev := eval.New(c.Fset, c.FuncDecl)
 	if evalTrace != nil {
 		*evalTrace = append(*evalTrace, ev)
+	}
+	if evalStepBudget > 0 {
+		ev.MaxSteps = evalStepBudget
+	}
+	if evalNumCPU > 0 {
+		ev.NumCPU = evalNumCPU
 	}
 	ev.VarInit = c.VarInit
 	ev.Adapt = func(fn *types.Func, args []eval.Value) ([]eval.Value, error) { return adaptArgs(c, fn, args) }
@@ -460,8 +474,18 @@ func adaptArgs(c *core.Ctx, fn *types.Func, args []eval.Value) ([]eval.Value, er
 		return out
 	}
 	curParam := 0
+	// holes: scalar parameters or fields that no name-based rule could bind; after everything else is bound, a hole is
+	// filled by elimination when exactly one unused reference argument of its type is left
+	type hole struct {
+		t    types.Type
+		fill func(eval.Value)
+		what string
+	}
+	var holes []*hole
+	var pending *hole
 	var bind func(pname string, t types.Type, depth int) (eval.Value, bool)
 	bind = func(pname string, t types.Type, depth int) (eval.Value, bool) {
+		pending = nil
 		if v, ok := pick(pname, t); ok {
 			return v, true
 		}
@@ -488,11 +512,17 @@ func adaptArgs(c *core.Ctx, fn *types.Func, args []eval.Value) ([]eval.Value, er
 		if st, ok := t.Underlying().(*types.Struct); ok && depth < 2 {
 			sv := &eval.StructVal{T: t, F: map[string]eval.Value{}}
 			for i := 0; i < st.NumFields(); i++ {
-				fv, ok := bind(st.Field(i).Name(), st.Field(i).Type(), depth+1)
+				fname := st.Field(i).Name()
+				fv, ok := bind(fname, st.Field(i).Type(), depth+1)
 				if !ok {
 					return nil, false
 				}
-				sv.F[st.Field(i).Name()] = fv
+				sv.F[fname] = fv
+				if pending != nil {
+					pending.fill = func(v eval.Value) { sv.F[fname] = v }
+					holes = append(holes, pending)
+					pending = nil
+				}
 			}
 			return sv, true
 		}
@@ -501,6 +531,10 @@ func adaptArgs(c *core.Ctx, fn *types.Func, args []eval.Value) ([]eval.Value, er
 				cell := v
 				return &eval.Ref{Get: func() eval.Value { return cell }, Set: func(x eval.Value) { cell = x }}, true
 			}
+		}
+		if _, basic := t.Underlying().(*types.Basic); basic {
+			pending = &hole{t: t, what: pname}
+			return eval.Opaque{Why: "unbound " + pname}, true
 		}
 		return nil, false
 	}
@@ -513,6 +547,26 @@ func adaptArgs(c *core.Ctx, fn *types.Func, args []eval.Value) ([]eval.Value, er
 			return nil, fmt.Errorf("the interface of %s.%s was refactored and its parameter %s (%s) cannot be bound unambiguously from the reference arguments (%s)", rel, fn.Name(), p.Name(), core.TypeStr(p.Type()), strings.Join(names, ", "))
 		}
 		out[i] = v
+		if pending != nil {
+			i := i
+			pending.fill = func(v eval.Value) { out[i] = v }
+			holes = append(holes, pending)
+			pending = nil
+		}
+	}
+	for _, h := range holes {
+		ts := core.TypeStr(h.t)
+		var left []*cand
+		for _, k := range pool {
+			if !k.used && k.typ == ts {
+				left = append(left, k)
+			}
+		}
+		if len(left) != 1 {
+			return nil, fmt.Errorf("the interface of %s.%s was refactored and %s (%s) cannot be bound unambiguously from the reference arguments (%s)", rel, fn.Name(), h.what, ts, strings.Join(names, ", "))
+		}
+		left[0].used = true
+		h.fill(left[0].v)
 	}
 	return out, nil
 }
